@@ -19,6 +19,9 @@ def oracle_c08(h, k, d):
         kind = "assertion-in-merge" if d["error"].startswith("AssertionError") else "session-error"
         bad.append((kind, f"session {k} ({json.dumps(h['sessions'][k])[:80]}) raised {d['error']}"))
         return bad
+    for pr in d.get("problems") or []:
+        if "handle kept open" in pr:
+            bad.append(("kept-handle-misses-examples", f"after session {k} (dataset not reopened in between): {pr}"))
     per, _ = history.expected_per_split(h, k)
     got = {s: e for s, e in d["iterate"]}
     for s, want in per.items():
